@@ -145,7 +145,7 @@ def main_source(main_imports):
 
 
 # module paths a host file system may well contain and that an interpreter might be tempted to use for itself
-SPECIAL_NAMES = ["core", "std", "prelude", "builtins", "object", "yarel", "string", "iter", "class_store", "lib"]
+SPECIAL_NAMES = ["core", "std", "prelude", "builtins", "object", "yarel", "string", "iter", "class_store", "lib", "main", "main", "Main", "mainly"]
 
 
 def gen_case(rng):
@@ -165,6 +165,9 @@ def gen_case(rng):
         # the same module is always spelled the same way, but not always as a bare name
         if rng.chance(1, 4):
             graph[nm]["prefix"] = rng.choice(["./", "lib/", "./lib/", "../"])
+        if nm == "main":
+            # only the bare path "main" names the top-level script: a module FILE called main in a directory is a module like any other
+            graph[nm]["prefix"] = rng.choice(["lib/", "./lib/", "tools/", "../", "a/b/"])
     mi = [(rng.choice(names + ["mz"]), rng.choice(["top", "alias", "fn", "twice"])) for _ in range(1 + rng.below(3))]
     return graph, mi
 
